@@ -517,7 +517,7 @@ def _pure(poly):
             if a[0] == "f" and a[1] in ("min", "max") and len(a[2]) == 2 and len(a) == 3:
                 if not (_pure(Poly(dict(a[2][0]))) and _pure(Poly(dict(a[2][1])))):
                     return False
-            elif a[0] == "f" and a[1] in ("size", "len", "cols", "rows") or a[0] == "p":
+            elif a[0] == "f" and a[1] in ("size", "len", "cols", "rows", "rank") or a[0] == "p":
                 continue
             else:
                 return False
